@@ -271,6 +271,13 @@ fn filter_cases(g: &G, rng: &mut Rng, exhaustive: bool) -> Vec<Vec<usize>> {
     out
 }
 
+/// operations that spawn worker threads on every call (about a millisecond
+/// per case): they are subsampled so that the whole search stays in budget
+fn heavy(repr: &str, op: &str) -> bool {
+    (repr == "AdjacencyList" && (op == "complement" || op == "union"))
+        || (repr == "AdjacencyMap" && op == "union")
+}
+
 pub fn search_c11(seed: u64, ctx: &mut Ctx) -> Option<J> {
     let mut rng = Rng::new(seed);
     let small3 = small_digraphs(3);
@@ -283,7 +290,9 @@ pub fn search_c11(seed: u64, ctx: &mut Ctx) -> Option<J> {
                 if let Some(f) = ctx.eval(&unary(repr, "converse", g.clone())) {
                     return Some(f);
                 }
-                if UNWEIGHTED.contains(&repr) {
+                if UNWEIGHTED.contains(&repr)
+                    && !(order == 4 && heavy(repr, "complement") && mask % 16 != seed % 16)
+                {
                     if let Some(f) = ctx.eval(&unary(repr, "complement", g)) {
                         return Some(f);
                     }
@@ -304,10 +313,17 @@ pub fn search_c11(seed: u64, ctx: &mut Ctx) -> Option<J> {
             }
         }
         if order == 3 {
-            // union: every ordered pair of digraphs of order <= 3
+            // union: every ordered pair of digraphs of order <= 3 (every
+            // sixteenth pair beyond order 2 for the thread-spawning impls)
             for (i, g) in small3.iter().enumerate() {
-                for h in &small3 {
+                for (k, h) in small3.iter().enumerate() {
                     for repr in UNWEIGHTED {
+                        if heavy(repr, "union")
+                            && g.order().max(h.order()) == 3
+                            && (i * 69 + k) as u64 % 16 != seed % 16
+                        {
+                            continue;
+                        }
                         let mut c = unary(repr, "union", g.clone());
                         c.h = Some(h.clone());
                         if rng.chance(1, 4) {
@@ -327,7 +343,7 @@ pub fn search_c11(seed: u64, ctx: &mut Ctx) -> Option<J> {
     // seeded random up to order 6; AdjacencyMap also with non-contiguous ids
     // for union and filter_vertices (and for complement / converse only when
     // the known defect F6 is not skipped)
-    for i in 0..6000usize {
+    for i in 0..4000usize {
         for repr in ALL_REPRS {
             let order = 1 + rng.below(6);
             let mut g = random_g(&mut rng, order, &[]);
@@ -336,8 +352,13 @@ pub fn search_c11(seed: u64, ctx: &mut Ctx) -> Option<J> {
                 return Some(f);
             }
             if UNWEIGHTED.contains(&repr) {
-                if let Some(f) = ctx.eval(&unary(repr, "complement", g.clone())) {
-                    return Some(f);
+                if !heavy(repr, "complement") || i % 16 == 0 {
+                    if let Some(f) = ctx.eval(&unary(repr, "complement", g.clone())) {
+                        return Some(f);
+                    }
+                }
+                if heavy(repr, "union") && i % 16 != 0 {
+                    continue;
                 }
                 let mut c = unary(repr, "union", g);
                 let o2 = 1 + rng.below(6);
@@ -356,11 +377,13 @@ pub fn search_c11(seed: u64, ctx: &mut Ctx) -> Option<J> {
             let o = 1 + rng.below(5);
             random_g(&mut rng, o, &[])
         };
-        let mut c = unary("AdjacencyMap", "union", g.clone());
-        c.h = Some(h.clone());
-        c.k = Some(random_noncontiguous_g(&mut rng, &[]));
-        if let Some(f) = ctx.eval(&c) {
-            return Some(f);
+        if i % 16 == 0 {
+            let mut c = unary("AdjacencyMap", "union", g.clone());
+            c.h = Some(h.clone());
+            c.k = Some(random_noncontiguous_g(&mut rng, &[]));
+            if let Some(f) = ctx.eval(&c) {
+                return Some(f);
+            }
         }
         for keep in filter_cases(&g, &mut rng, false) {
             let mut c = unary("AdjacencyMap", "filter_vertices", g.clone());
